@@ -78,6 +78,31 @@ def run():
             if rc != 0:
                 raise vlib.Inconclusive("License concurrent driver failed:\n" + txt[-3000:])
             trace_v1(v, acc, read_ndjson(out), "License: concurrent vs sequential")
+    # the v1 command line backend: 1000 worker goroutines over one License
+    outb = os.path.join(sub("out"), "v1backend.ndjson")
+    for race in (False, True):
+        if os.path.exists(outb):
+            os.remove(outb)
+        rc, txt, _ = go_overlay_test("tools/identify_license/backend", ["common/util_test.go", "v1backend/backend_driver_test.go"], "^TestVerifV1Backend$",
+                                     env={"VERIF_OUT": outb, "VERIF_SEED": str(vlib.SEED)}, race=race, timeout=2400, abs_extra=overlay_extra())
+        if vlib.build_failed(txt):
+            raise vlib.Inconclusive("v1 backend driver did not build:\n" + txt[-3000:])
+        if race:
+            n = txt.count("WARNING: DATA RACE")
+            acc.extra["race_detector_reports_v1_backend"] = n
+            if n:
+                m = re.search(r"WARNING: DATA RACE\n(.*?)\n\n", txt, re.S)
+                v.fail("race-detector", {"reports": n, "first": (m.group(1) if m else txt)[:2500], "where": "v1 backend"})
+            elif rc != 0:
+                raise vlib.Inconclusive("v1 backend driver under -race failed:\n" + txt[-3000:])
+        else:
+            if rc != 0:
+                raise vlib.Inconclusive("v1 backend driver failed:\n" + txt[-3000:])
+            rb = read_ndjson(outb)
+            for x in rb:
+                if x.get("ev") == "backenderr":
+                    v.fail("backend-error", x)
+            trace_v1(v, acc, rb, "v1 CLI backend vs sequential MultipleMatch")
     rc = v.finish()
     vlib.write_evidence(PID, acc.coverage("rounds of 4 (8) concurrent callers on a Classifier filled by AddValue (lazy sets), each doing MultipleMatch, AddValue of a new key, NearestMatch; every lock operation, access to `values` / `set:<key>` and goroutine fork is an event; TLC recomputes happens-before; results compared with sequential results; the same under -race; a License with precomputed sets; non-trivial = lazy search-set assignments observed"),
         ["events of different goroutines are ordered only by the sink's mutex; lock events are emitted while the lock is held", "the race detector is a second sensor, not the oracle of leg T"], time.time() - t0, len(v.violations))
